@@ -621,7 +621,23 @@ def make_plan_cases(rng, n, tier):
             sub2 = [(sub[0] + 1) % N]
         o2 = {"sub": sub2, "inis": rng.sample(range(N), rng.randint(1, N)), "incl": rng.choice([0, 1]),
               "clip": rng.choice([None, -1, 0, 2]), "subgoals_as": "list"}
-        cases.append({"m": m, "rep": rep, "o": o, "warm": rng.choice(WARMS), "o2": o2})
+        # call history: the option is first configured otherwise, read (sub_task arrays, planning_result), then
+        # reconfigured to `o` through its public attributes (or by growing the sub-goal list it was given)
+        pre = None
+        if rng.random() < 0.5:
+            pre = dict(o, grown=False)
+            for what in rng.sample(["clip", "incl", "inis", "sub"], rng.randint(1, 3)):
+                if what == "clip":
+                    pre["clip"] = rng.choice([x for x in [None, -2, -1, 0, 1, 2] if x != o["clip"]])
+                elif what == "incl":
+                    pre["incl"] = 1 - o["incl"]
+                elif what == "inis":
+                    pre["inis"] = rng.sample(range(N), rng.randint(1, N))
+                elif len(sub) == 2 and o["subgoals_as"] == "list":
+                    pre["sub"], pre["grown"] = [sub[0]], True
+                else:
+                    pre["sub"] = [rng.choice([s for s in range(N) if s not in sub] or [sub[0]])]
+        cases.append({"m": m, "rep": rep, "o": o, "warm": rng.choice(WARMS), "o2": o2, "pre": pre})
     return cases
 
 
@@ -653,7 +669,26 @@ def plan_real(case):
             max_nonterminal_pseudoreward=(float("inf") if oo["clip"] is None else float(oo["clip"])))
     try:
         # two sub-goal options on one base, both sub-tasks built before either is read
-        opt = make(o, "g")
+        pre = case.get("pre")
+        if pre:
+            opt = make(pre, "g")
+            with warnings.catch_warnings():
+                warnings.simplefilter("ignore")
+                project_views(opt.sub_task, b, True)        # read under the earlier configuration ...
+                try:
+                    opt.planning_result
+                except Exception:                            # noqa: BLE001 - only the history matters
+                    pass
+            # ... then reconfigure
+            opt.max_nonterminal_pseudoreward = float("inf") if o["clip"] is None else float(o["clip"])
+            opt.include_mdp_absorbing_states = bool(o["incl"])
+            opt.initial_states = [b.slabel[s] for s in o["inis"]]
+            if pre.get("grown"):
+                opt.subgoals.extend(b.slabel[s] for s in o["sub"] if s not in pre["sub"])      # the caller's list grows
+            elif pre["sub"] != o["sub"]:
+                opt.subgoals = subl if o["subgoals_as"] == "list" else set(subl)
+        else:
+            opt = make(o, "g")
         opt2 = make(case.get("o2") or o, "g2")
         held = opt.sub_task
         held2 = opt2.sub_task
@@ -700,8 +735,12 @@ def judge_plan(ctx, cases, tamper=None):
         rec.update(gclass=gclass, ginst=ginst, tab=1, slist=list(range(1, m["N"] + 1)), alist=list(range(1, m["K"] + 1)),
                    sub=[s + 1 for s in o["sub"]], inis=[s + 1 for s in o["inis"]], incl=o["incl"],
                    clip=[1, 0] if o["clip"] is None else [o["clip"], 1], warm=c.get("warm", "none"), cls=kind)
+        pre = c.get("pre") or o
+        rec["reconf"] = 1 if c.get("pre") else 0
+        rec["pre"] = dict(rec, sub=[s + 1 for s in pre["sub"]], inis=[s + 1 for s in pre["inis"]], incl=pre["incl"],
+                          clip=[1, 0] if pre["clip"] is None else [pre["clip"], 1])
         o2 = c.get("o2") or o
-        rec["sib"] = dict(rec, sub=[s + 1 for s in o2["sub"]], inis=[s + 1 for s in o2["inis"]], incl=o2["incl"],
+        rec["sib"] = dict({k: v for k, v in rec.items() if k != "pre"}, sub=[s + 1 for s in o2["sub"]], inis=[s + 1 for s in o2["inis"]], incl=o2["incl"],
                           clip=[1, 0] if o2["clip"] is None else [o2["clip"], 1])
         batch.append(rec)
     res = tlc(ctx, "plan", "plan", batch, "plan: sub-task machine + exact optimum of the derived instance")
@@ -924,6 +963,9 @@ def run_elsewhere_first(case, option, rep):
             option.run_on(pb.mdp, pb.slabel[prev["s0"]], rng=random.Random(11))
     except Exception:                                                # noqa: BLE001 - only the history matters
         pass
+    # the option object also carries that MDP (other discount) as an attribute, as planning options do:
+    # the semi-MDP discounts at the rate of the MDP it is built on, not at the option's
+    option.mdp = pb.mdp
 
 
 def policy_fn(b, pol):
@@ -1197,7 +1239,8 @@ def make_trace_cases(rng, n, tier):
             lim = rng.choice([1, 2, 3, 4, tm, tm, tm, tm, tm, tm, tm, tm])
             if k == 0 and rng.random() < 0.35:
                 opts.append({"type": "plan", "name": f"p{k}", "term": term, "inits": inits, "lim": lim,
-                             "incl": rng.choice([0, 1]), "clip": rng.choice([None, -1, 0])})
+                             "incl": rng.choice([0, 1]), "clip": rng.choice([None, -1, 0]),
+                             "own_discount": rng.choice([None] + [g for g in [(1, 2), (9, 10), (1, 1)] if F(*g) != F(GN, GD)])})
             else:
                 pol = rand_policy(rng, m) if rng.random() < 0.4 else [list(r) for r in m["avail"]]
                 opts.append({"type": "simple", "name": f"o{k}", "term": term, "inits": inits, "lim": lim,
@@ -1234,7 +1277,11 @@ def trace_world(case):
             options.append(SimpleOption(o["name"], RecPolicy(FunctionalPolicy(policy_fn(b, o["pol"])), log), term, inits,
                                         o["lim"], o["term_as"]))
         else:
-            options.append(RecPlanOption(log, mdp=b.mdp, initial_states=inits, subgoals=term,
+            own = b.mdp
+            if o.get("own_discount"):       # planned on a copy of the world with another discount (same dynamics, same labels)
+                cm = dict(m, GN=o["own_discount"][0], GD=o["own_discount"][1])
+                own = make_base(cm, case["rep"], random.Random(digest(case["m"]) + digest(case["rep"])))[0].mdp
+            options.append(RecPlanOption(log, mdp=own, initial_states=inits, subgoals=term,
                                          planner=ValueIteration(max_residual=1e-8, max_iterations=500),
                                          include_mdp_absorbing_states=bool(o["incl"]), name=o["name"], max_steps=o["lim"],
                                          max_nonterminal_pseudoreward=(float("inf") if o["clip"] is None else float(o["clip"]))))
@@ -1251,6 +1298,7 @@ def trace_world(case):
                     before.next_state_transit_time_reward_dist(pb.slabel[prev["s0"]], o)
                 except Exception:                                    # noqa: BLE001 - only the history matters
                     pass
+                o.mdp = pb.mdp      # the option keeps a reference to that MDP (other discount)
         del log[:]
     smdp = SemiMarkovDecisionProcess(mdp=b.mdp, options=options, n_option_simulations=case["n"],
                                      include_mdp_actions=bool(case["inclprim"]), seed=case["seed"])
